@@ -57,7 +57,8 @@ func Verify(stump Stump, delHashes []Hash, proof Proof) ([]int, error) {
 	if err := checkNoEmpty(delHashes, proof); err != nil {
 		return nil, err
 	}
-	positions, cands, err := calc(stump.NumLeaves, delHashes, proof)
+	_, cands, err := calc(stump.NumLeaves, delHashes, proof)
+	positions := cands
 	if err != nil {
 		return nil, err
 	}
@@ -75,7 +76,7 @@ func Verify(stump Stump, delHashes []Hash, proof Proof) ([]int, error) {
 }
 
 func (s *Stump) Update(delHashes []Hash, proof Proof) error {
-	_ = s.del(delHashes, proof)
+	if err := s.del(delHashes, proof); err != nil { return err }
 	s.NumLeaves++
 	return nil
 }
